@@ -16,7 +16,7 @@ FAMILY_VARIANTS = {
     "order_rows": ALLV + POLV,
     "conflict_ortho": ALLV + POLV,
     "completion_chain": ALLV + POLV,
-    "conflict_flat": ALLV + ["B11+p1", "B11+p2", "B11+p3"],
+    "conflict_flat": ALLV + ["B11+p1", "B11+p2", "B11+p3", "B+p1", "B+p2", "B+p3", "M+p1", "M+p2", "M+p3"],
     "history_always": ALLV + ["B11+p1", "B11+p3"],
     "kleene_defer": ["B", "B11", "M"],
     "entry_pt_noqueue": ["B", "BC", "B11"],     # no_message_queue is an option of back / back11       # Kleene triggers: run-time-speed policies with flat_fold dispatch (C18 quantifier)
@@ -229,7 +229,9 @@ PROPS = {
                 + [job(f, "common", 600, 20000, variants=ALLV, mode="diff:backend") for f in ["ids_implicit", "hist_exit_pt", "completion_regions"]]   # findings KF-3, KF-4, KF-5
                 + rand_jobs("struct", ["common"], 600, 8000, mode="diff:backend") + rand_jobs("hist", ["common"], 600, 8000, mode="diff:backend")
                 + rand_jobs("pseudo", ["plain"], 0, 6000, mode="diff:backend") + rand_jobs("compl", ["common"], 0, 6000, mode="diff:backend")
-                + rand_jobs("blk", ["common"], 0, 6000, nthorough=12, mode="diff:backend"),
+                + rand_jobs("blk", ["common"], 0, 6000, nthorough=12, mode="diff:backend")
+                # the back-ends must also agree under each non-default active-state-switch policy, exceptions included (third seeded defect C13)
+                + [job("conflict_flat", "common_throws", 500, 20000, variants=["B+p%d" % k, "B11+p%d" % k, "M+p%d" % k], mode="diff:backend") for k in (1, 2, 3)],
         "nontrivial": ["transition"],
         "rule": "the same plan (events, guard vectors, posts, enqueue/drain, stop/start, throws) executed on back+runtime, back+compile-time, "
                 "backmp11 flat_fold / function_pointer_array / favor_compile_time; normalised traces (false completion-guard re-tries dropped, "
